@@ -104,6 +104,7 @@ def h_flow(t, part):
     if 'first' in part:
         t.force(part['first'] if isinstance(part['first'], list) else [part['first']])
     hostile_undecodable = 0
+    bin_sent = 0
     for step in range(part['n']):
         bfr = worlds.encode_frames(w.P(packet.EVENT, data=['ev', b'bystander-bytes'], namespace='/a'))
         w.recv('e2', bfr[0])            # a bystander is in the middle of a binary event while the offender acts
@@ -141,10 +142,13 @@ def h_flow(t, part):
         if during['served'] != during['n']:
             return Fail('hostile:bystander-not-served-during-offenders-handler', 'a bystander event that arrived while a handler '
                         'was running for the offender was not dispatched; handlers ran %r' % (calls[ncalls:],))
+        bin_sent += (1 + extra) if kind == 0 else 1      # every frame may end up as an attachment of a pending header
         held = w.s._binary_packet.get('e0')
-        if kind == 0 and held is not None and len(held.attachments) > extra:
-            return Fail('hostile:resources-in-proportion-to-declared-count', 'a header declaring %d attachments, %d binary frames '
-                        'received: the server holds a list of %d attachment slots' % (count, extra, len(held.attachments)))
+        if held is not None and len(held.attachments) > bin_sent:
+            # (the pending header may stem from an earlier step: the bound is what the offender has sent altogether)
+            return Fail('hostile:resources-in-proportion-to-declared-count', 'the offender has sent %d frames so far; the server '
+                        'holds a pending packet with %d attachment slots (declared count %r)' % (
+                            bin_sent, len(held.attachments), held.attachment_count))
         new_calls = [c for c in calls[ncalls:] if c != ('ev', b1, ('during',))]
         own = ({w.sid('e0', n) for n in ('/', '/a')} - {None}) | own_before      # the offender's sessions before or after
         bad = [c for c in new_calls if c[1] not in own]
